@@ -268,16 +268,19 @@ impl Duration {
         microseconds: u64,
         nanoseconds: u64,
     ) -> Self {
-        Self::compose_f64(
-            sign,
-            days as f64,
-            hours as f64,
-            minutes as f64,
-            seconds as f64,
-            milliseconds as f64,
-            microseconds as f64,
-            nanoseconds as f64,
-        )
+        // Integer arithmetic: each u64 field times its factor is below 2^111, so the i128 sum cannot overflow.
+        let total_ns = i128::from(days) * i128::from(NANOSECONDS_PER_DAY)
+            + i128::from(hours) * i128::from(NANOSECONDS_PER_HOUR)
+            + i128::from(minutes) * i128::from(NANOSECONDS_PER_MINUTE)
+            + i128::from(seconds) * i128::from(NANOSECONDS_PER_SECOND)
+            + i128::from(milliseconds) * i128::from(NANOSECONDS_PER_MILLISECOND)
+            + i128::from(microseconds) * i128::from(NANOSECONDS_PER_MICROSECOND)
+            + i128::from(nanoseconds);
+        if sign < 0 {
+            Self::from_total_nanoseconds(-total_ns)
+        } else {
+            Self::from_total_nanoseconds(total_ns)
+        }
     }
 
     /// Creates a new duration from its parts. Set the sign to a negative number for the duration to be negative.
